@@ -2,7 +2,7 @@ import glob, hashlib, json, os, re, shutil, subprocess, tempfile, vlib
 
 THEOREMS = ["Folang.Props.C05." + t for t in """addAll_get addAll_const_get eqsUnion_order_indep rsRegisterNewEI_order_indep
 find_perm_nodup piRegAll_order_indep exhaustive_decision_order_indep lookupRecFac_order_indep strict_sorted_perm_unique
-lookup_unfixed_order_dependent fact_enumSites fact_lookupRecFacCalls""".split()] + \
+lookup_unfixed_order_dependent fact_enumSites fact_enumCallers fact_lookupRecFacCalls""".split()] + \
     ["Folang.Props.C05Compose." + t for t in "runFrom_order_indep run_deterministic one_dependent_stage_breaks orderIndep_of_ignores".split()]
 
 ASSUMPTIONS = [
